@@ -66,18 +66,25 @@ def tool(name):
     return p
 
 
-CONST_SPECS = [
-    'pkg/kubernetes/resources.go:K_:MinShares,MaxShares,SharesPerCPU,MilliCPUToCPU,QuotaPeriod,MinQuotaPeriod,'
-    'GuaranteedOOMScoreAdj,BestEffortOOMScoreAdj,MinBurstableOOMScoreAdj,MaxBurstableOOMScoreAdj',
-]
+# one generated file per group, so that a changed constant only re-checks the theorems that use it
+CONST_SPECS = {
+    'Gen_Consts.v': [
+        'pkg/kubernetes/resources.go:K_:MinShares,MaxShares,SharesPerCPU,MilliCPUToCPU,QuotaPeriod,MinQuotaPeriod,'
+        'GuaranteedOOMScoreAdj,BestEffortOOMScoreAdj,MinBurstableOOMScoreAdj,MaxBurstableOOMScoreAdj',
+    ],
+    'Gen_Affinity.v': [
+        'pkg/resmgr/cache/affinity.go:AFF_:UserWeightCutoff,DefaultWeight',
+    ],
+}
 
 
 def regenerate():
     """Run every translator against /repo's working tree. Returns list of (name, ok, msg)."""
     os.makedirs(GEN, exist_ok=True)
     res = []
-    rc, out, _ = sh([tool('consts2coq'), '-root', REPO, '-out', os.path.join(GEN, 'Gen_Consts.v')] + CONST_SPECS)
-    res.append(('consts2coq', rc == 0, out.strip()))
+    for fn, specs in CONST_SPECS.items():
+        rc, out, _ = sh([tool('consts2coq'), '-root', REPO, '-out', os.path.join(GEN, fn)] + specs)
+        res.append(('consts2coq:' + fn, rc == 0, out.strip()))
     for extra in EXTRA_TRANSLATORS:
         res.append(extra())
     return res
